@@ -70,6 +70,10 @@ def make_seed(spec):
     """seed spec from the plan -> what is passed to aotools"""
     if spec is None or spec == "none":
         return None
+    if isinstance(spec, dict) and "ssc" in spec:
+        # the k-th child of SeedSequence(x): what a caller gets from SeedSequence(x).spawn(n) to seed one layer each
+        x, k = spec["ssc"]
+        return numpy.random.SeedSequence(int(x), spawn_key=(int(k),))
     if isinstance(spec, dict) and "ss" in spec:
         # a numpy SeedSequence; when 'shared', every actor of the run that names it passes the SAME object
         # (per-layer seed objects kept by the caller and reused for several calls)
